@@ -1,7 +1,7 @@
 (* Tie_Source: what lib/srcgen.py regenerated from /repo's sources on this run (GEN.Gen_Source) is the FIPS 180-4 /
    RFC 4648 object the models, specs and theorems of HV are about.  Hand-written and fixed; only Gen_Source.v changes.
    Every theorem is for ALL words / arrays (no bound): the generated definitions are open terms in x, w, wv, j. *)
-From HV Require Import Base_Bytes Spec_SHA Spec_Base64 Spec_Base32 Spec_Base36 Model_Sha1Transform Model_Sha2Ctx Base_Result Model_Otp.
+From HV Require Import Base_Bytes Spec_SHA Spec_Base64 Spec_Base32 Spec_Base36 Model_Sha1Transform Model_Sha2Ctx Base_Result Model_Otp Model_Hmac.
 From Coq Require Import Lia Arith ZArith.
 From GEN Require Import Gen_Source.
 From Coq Require Import List NArith.
@@ -162,6 +162,13 @@ Proof.
   reflexivity.
 Qed.
 
+(* ---- HMAC (src/hmac.cpp): the pad bytes at both sites (HmacContext::init, get_hmac) and the hex table, against Model_Hmac / RFC 2104 ---- *)
+Theorem tie_hmac_pads : forall k,
+  HM.src_ipad_ctx 8 k = N.lxor k 0x36 /\ HM.src_okeypad_ctx 8 k = N.lxor k 0x5c /\
+  HM.src_ikeypad 8 k = N.lxor k 0x36 /\ HM.src_okeypad 8 k = N.lxor k 0x5c.
+Proof. intros; repeat split; reflexivity. Qed.
+Theorem tie_hex_lut : HM.src_hex_lut = hex_lut.   Proof. reflexivity. Qed.
+
 (* ---- codec alphabets (RFC 4648 tables 1, 2, 3; Base36 digits) ---- *)
 Theorem tie_b64 : src_b64_std = b64_spec_alphabet false /\ src_b64_url = b64_spec_alphabet true.
 Proof. split; reflexivity. Qed.
@@ -174,4 +181,5 @@ Print Assumptions tie_256_funcs. Print Assumptions tie_512_funcs. Print Assumpti
 Print Assumptions tie_256_round. Print Assumptions tie_512_round. Print Assumptions tie_sha1_rol. Print Assumptions tie_sha1_rounds. Print Assumptions tie_sha1_blk.
 Print Assumptions tie_finish_params. Print Assumptions tie_256_block_nb. Print Assumptions tie_512_block_nb. Print Assumptions tie_pm_len. Print Assumptions tie_len_b.
 Print Assumptions tie_hotp_table. Print Assumptions tie_hotp_offset. Print Assumptions tie_hotp_return. Print Assumptions tie_hotp_bin.
+Print Assumptions tie_hmac_pads. Print Assumptions tie_hex_lut.
 Print Assumptions tie_b64. Print Assumptions tie_b32. Print Assumptions tie_b36.
